@@ -188,7 +188,7 @@ def straightline(rng, B, **kw):
 
 UNASSIGNED = [0x0c, 0x0f, 0x1e, 0x21, 0x2f, 0x49, 0x4f, 0x5c, 0x5e, 0xa5, 0xb0, 0xef, 0xf6, 0xfb]
 KINDS = ["valid", "valid", "valid", "pushdata", "nonjumpdest", "oob", "oob-far", "big32", "big64", "max", "computed-valid",
-         "computed-bad", "zero", "truncated-tail", "last-byte"]
+         "computed-bad", "zero", "truncated-tail", "last-byte", "pc-relative", "codesize-relative"]
 
 
 def controlflow(rng, underflow_p=0.0, symbolic_p=0.0, big_stack_p=0.0):
@@ -245,6 +245,17 @@ def controlflow(rng, underflow_p=0.0, symbolic_p=0.0, big_stack_p=0.0):
             c = rng.randint(1, 9)
             a.push_expr(lambda L, n=name, c=c: L[n] - c, 2)
             a.emit(c, "ADD")
+        elif kind == "pc-relative":
+            # PC + constant: the library knows PC concretely, so this folds to a constant target
+            pcs.append(1)
+            pn = "PC%d" % len(pcs)
+            a.mark(pn)
+            a.emit("PC")
+            a.push_expr(lambda L, n=name, pn=pn: L[n] - L[pn], 2)
+            a.emit("ADD")
+        elif kind == "codesize-relative":
+            a.push_expr(lambda L, n=name: L["__len__"] - L[n], 2)
+            a.emit("CODESIZE", "SUB")
         elif kind == "computed-bad":
             c = rng.randint(1, 9)
             a.push_expr(lambda L, n=name, c=c: L[n] + 1 - c, 2)
@@ -255,6 +266,7 @@ def controlflow(rng, underflow_p=0.0, symbolic_p=0.0, big_stack_p=0.0):
     rng_hi = rng.randint(1, 0xffff)
     need_tail = []
     need_end = []
+    pcs = []
     # a push whose immediate contains JUMPDEST bytes; PD names the second byte of the immediate
     a.mark_at("PD", 2)
     a.emit(("push", 0x5b5b5b, 3), "POP")
